@@ -1,4 +1,5 @@
 import GoomVerif.Model.A64Dec
+import GoomVerif.Model.A64Full
 import GoomVerif.Lemmas.C15L
 /-! Helper lemmas for C17: the Arm ARM displacement formulas, the generic "first intersecting row" argument over the
     decoding table, env-independent decoding, and the scan invariants.  Kernel-only tactics. -/
@@ -480,5 +481,48 @@ theorem movword_fields (opc h v : Nat) (_ho : opc < 4) (hh : h < 4) (hv : v < 65
   · simp only [r5, m5, BitVec.toNat_ushiftRight, BitVec.toNat_ofNat, Nat.shiftRight_zero, movN]; omega
   · simp only [imm16, m16, BitVec.toNat_ushiftRight, BitVec.toNat_ofNat, Nat.shiftRight_eq_div_pow, movN]; omega
   · simp only [hw, m2, BitVec.toNat_ushiftRight, BitVec.toNat_ofNat, Nat.shiftRight_eq_div_pow, movN]; omega
+
+/-! ### the oracle-free model (Model/A64Full over the mechanically translated Gen.A64Args) -/
+
+/-- for kinds whose translated case is panic-free the fallback oracle is never consulted -/
+theorem genEnv_argOk_indep (fb1 fb2 : Env) (i k : Nat) (x : BitVec 32) (hk : k ∉ Gen.A64Args.badKinds) :
+    (genEnv fb1).argOk i k x = (genEnv fb2).argOk i k x := by
+  rcases Gen.A64Args.decodeArgOut_ok k x hk with h | h <;> simp [genEnv, h]
+
+theorem decodeArgs_genEnv_indep (fb1 fb2 : Env) (i : Nat) (x : BitVec 32) :
+    ∀ ks : List Nat, (∀ k ∈ ks, k ∉ Gen.A64Args.badKinds) → decodeArgs (genEnv fb1) i ks x = decodeArgs (genEnv fb2) i ks x := by
+  intro ks
+  induction ks with
+  | nil => intro _; rfl
+  | cons k ks ih =>
+    intro h
+    unfold decodeArgs
+    by_cases hk0 : k = 0
+    · simp [hk0]
+    · have h1 := genEnv_argOk_indep fb1 fb2 i k x (h k List.mem_cons_self)
+      have h2 := ih (fun k' hk' => h k' (List.mem_cons_of_mem _ hk'))
+      simp only [hk0, if_false, decodeArg, h1, h2]
+
+theorem decodeFrom_genEnv_indep (fb1 fb2 : Env) (x : BitVec 32)
+    (hc : ∀ i c x, genCond c = none → fb1.condOk i c x = fb2.condOk i c x) :
+    ∀ rows i, (∀ r ∈ rows, ∀ k ∈ r.args, k ∉ Gen.A64Args.badKinds) →
+      decodeFrom (genEnv fb1) rows i x = decodeFrom (genEnv fb2) rows i x := by
+  intro rows
+  induction rows with
+  | nil => intro i _; rfl
+  | cons r rs ih =>
+    intro i h
+    have hargs := decodeArgs_genEnv_indep fb1 fb2 i x r.args (h r List.mem_cons_self)
+    have hrest := ih (i + 1) (fun r' hr' => h r' (List.mem_cons_of_mem _ hr'))
+    have hcond : condVal (genEnv fb1) i r.condId x = condVal (genEnv fb2) i r.condId x := by
+      unfold condVal
+      split
+      · rfl
+      · simp only [genEnv]
+        cases hg : genCond r.condId with
+        | some f => rfl
+        | none => exact hc i r.condId x hg
+    unfold decodeFrom
+    rw [hcond, hargs, hrest]
 
 end C17L
